@@ -1,10 +1,11 @@
 import GV.Model.Names
+import GV.Model.NamesPlain
 import GV.Proofs.NamesLemmas
 
 /-! The name allocator with minification OFF (`name`, `name$1`, `name$2` … with the `allVars` counters):
     invariant and lemmas for `GV.Props.C01.names_distinct_plain`. -/
 namespace GV.Proofs.NamesPlain
-open GV.Names GV.Proofs.Names
+open GV.Names GV.NamesPlain GV.Proofs.Names
 
 /-- utils.go:310-315: `varName = name` for the first use, `fmt.Sprintf("%s$%d", name, n)` afterwards -/
 def render (b : Name) (k : Nat) : Name := if k > 0 then b ++ 36 :: decimal k else b
@@ -50,11 +51,12 @@ def OKs (B : List Name) (pk : List Name) : List Scope → Prop
     (∀ v ∈ pk ++ chainLocals (sc :: rest), ∀ b k, b ∈ B → v = render b k → k < sc.vars.cnt b) ∧
     (∀ p ∈ rest, ∀ b, p.vars.cnt b ≤ sc.vars.cnt b) ∧ OKs B pk rest
 
-structure InvP (B : List Name) (st : NState) : Prop where
+/-- `R`: the names seeded into the root context (reserved keywords and reserved globals) -/
+structure InvP (B R : List Name) (st : NState) : Prop where
   nodup : (visible st).Nodup
   ok : OKs B st.pkgNames st.chain
-  res : ∀ sc ∈ st.chain, ∀ r ∈ reserved, 1 ≤ sc.vars.cnt r
-  notres : ∀ n ∈ visible st, n ∉ reserved
+  res : ∀ sc ∈ st.chain, ∀ r ∈ R, 1 ≤ sc.vars.cnt r
+  notres : ∀ n ∈ visible st, n ∉ R
 
 theorem cnt_bumpTo (nm n : Name) (v : Nat) (c : Scope) : (bumpTo nm v c).vars.cnt n = if nm = n then v else c.vars.cnt n := by
   simp [bumpTo, VarMap.cnt_set]
@@ -65,20 +67,46 @@ theorem chainLocals_bumpTo (nm : Name) (x : Nat) : ∀ (chain : List Scope), cha
 
 theorem reserved_no_dollar : ∀ r ∈ reserved, 36 ∉ r := by decide
 
-theorem render_not_reserved (b : Name) (k : Nat) (h : k = 0 → b ∉ reserved) : render b k ∉ reserved := by
+theorem render_not_reserved (R : List Name) (hR : ∀ r ∈ R, 36 ∉ r) (b : Name) (k : Nat) (h : k = 0 → b ∉ R) :
+    render b k ∉ R := by
   unfold render
   split
   · intro hr
-    exact reserved_no_dollar _ hr (by simp)
+    exact hR _ hr (by simp)
   · exact h (by omega)
 
-theorem initP (B : List Name) : InvP B initState := by
-  refine ⟨by simp [visible, initState, chainLocals, rootScope], ?_, ?_, by simp [visible, initState, chainLocals, rootScope]⟩
-  · simp [initState, OKs, chainLocals, rootScope]
+theorem foldl_set_ge (l : List Name) : ∀ (m : VarMap) (r : Name), (r ∈ l ∨ 1 ≤ m.cnt r) →
+    1 ≤ (l.foldl (fun m k => VarMap.set m k 1) m).cnt r := by
+  induction l with
+  | nil => intro m r h; simpa using h
+  | cons k l ih =>
+    intro m r h
+    simp only [List.foldl_cons]
+    apply ih
+    by_cases hk : k = r
+    · right; simp [VarMap.cnt_set, hk]
+    · rcases h with h | h
+      · simp at h
+        rcases h with h | h
+        · exact absurd h.symm hk
+        · left; exact h
+      · right; simp [VarMap.cnt_set, hk, h]
+
+theorem reservedAll_no_dollar : ∀ r ∈ reservedAll, 36 ∉ r := by decide
+
+theorem initP (B : List Name) (extra : List Name) : InvP B (reserved ++ extra) (initStateX extra) := by
+  refine ⟨by simp [visible, initStateX, chainLocals, rootScope, seedExtra], ?_, ?_,
+    by simp [visible, initStateX, chainLocals, rootScope, seedExtra]⟩
+  · simp [initStateX, OKs, chainLocals, rootScope, seedExtra]
   · intro sc hsc r hr
-    simp [initState] at hsc
+    simp [initStateX] at hsc
     subst hsc
-    exact rootScope_res r hr
+    simp only [seedExtra]
+    apply foldl_set_ge
+    simp only [List.mem_append] at hr
+    rcases hr with hr | hr
+    · right; exact rootScope_res r hr
+    · left; exact hr
 
 /-- a package-level allocation bumps the counter in every live context -/
 theorem OKs_bump (B : List Name) (hB : RenderInj B) (nm : Name) (hnm : nm ∈ B) (n : Nat) (pk : List Name) :
@@ -118,9 +146,9 @@ theorem OKs_bump (B : List Name) (hB : RenderInj B) (nm : Name) (hnm : nm ∈ B)
       · exact Nat.le_refl _
       · exact h2 p0 hp0 b
 
-theorem inv_req_plain (B : List Name) (hB : RenderInj B) {st : NState} {name : Name} {pk : Bool} {c : List Scope} {v : Name}
-    (hi : InvP B st) (hnm : encodeIdent name ∈ B) (h : newVariable false name pk st.chain = some (c, v)) :
-    InvP B { chain := c, pkgNames := if pk then st.pkgNames ++ [v] else st.pkgNames } ∧ v ∉ visible st := by
+theorem inv_req_plain (B R : List Name) (hR : ∀ r ∈ R, 36 ∉ r) (hB : RenderInj B) {st : NState} {name : Name} {pk : Bool} {c : List Scope} {v : Name}
+    (hi : InvP B R st) (hnm : encodeIdent name ∈ B) (h : newVariable false name pk st.chain = some (c, v)) :
+    InvP B R { chain := c, pkgNames := if pk then st.pkgNames ++ [v] else st.pkgNames } ∧ v ∉ visible st := by
   cases hch : st.chain with
   | nil => rw [hch] at h; simp [newVariable] at h
   | cons fc parents =>
@@ -133,9 +161,9 @@ theorem inv_req_plain (B : List Name) (hB : RenderInj B) {st : NState} {name : N
       intro hvis
       have := o1 v (by simpa [visible, hch] using hvis) _ _ hnm hv
       omega
-    have hnr : v ∉ reserved := by
+    have hnr : v ∉ R := by
       rw [hv]
-      apply render_not_reserved
+      apply render_not_reserved R hR
       intro h0 hr
       have := hi.res fc (by rw [hch]; simp) _ hr
       omega
@@ -227,9 +255,9 @@ theorem inv_req_plain (B : List Name) (hB : RenderInj B) {st : NState} {name : N
         · exact hi.notres n (by simp [visible, hold, hn])
 
 /-- entering a nested function: the new context starts with a copy of the enclosing `allVars` (functions.go:24-69) -/
-theorem inv_copy_plain (B : List Name) {st : NState} {fc : Scope} {parents : List Scope} (hi : InvP B st)
+theorem inv_copy_plain (B R : List Name) {st : NState} {fc : Scope} {parents : List Scope} (hi : InvP B R st)
     (hch : st.chain = fc :: parents) :
-    InvP B { chain := { vars := fc.vars, locals := [] } :: fc :: parents, pkgNames := st.pkgNames } := by
+    InvP B R { chain := { vars := fc.vars, locals := [] } :: fc :: parents, pkgNames := st.pkgNames } := by
   have hok := hi.ok
   rw [hch] at hok
   have hv : visible { chain := { vars := fc.vars, locals := [] } :: fc :: parents, pkgNames := st.pkgNames } = visible st := by
@@ -257,8 +285,8 @@ def opBase : Op → List Name
   | .ptr _ name => [encodeIdent (name ++ ptrSuffix)]
 
 /-- remembering a pointer-variable name touches neither `allVars` nor `localVars` -/
-theorem inv_recordPtr (B : List Name) (v : Nat) (nm : Name) {c : List Scope} {p : List Name}
-    (hi : InvP B { chain := c, pkgNames := p }) : InvP B { chain := recordPtr v nm c, pkgNames := p } := by
+theorem inv_recordPtr (B R : List Name) (v : Nat) (nm : Name) {c : List Scope} {p : List Name}
+    (hi : InvP B R { chain := c, pkgNames := p }) : InvP B R { chain := recordPtr v nm c, pkgNames := p } := by
   cases c with
   | nil => exact hi
   | cons sc r =>
@@ -274,8 +302,8 @@ theorem inv_recordPtr (B : List Name) (v : Nat) (nm : Name) {c : List Scope} {p 
       · exact hi.res sc (by simp) r' hr'
       · exact hi.res s (by simp [hs]) r' hr'
 
-theorem inv_step_plain (B : List Name) (hB : RenderInj B) {st st' : NState} {op : Op} (hi : InvP B st)
-    (hop : ∀ b ∈ opBase op, b ∈ B) (h : stepOp false st op = some st') : InvP B st' := by
+theorem inv_step_plain (B R : List Name) (hR : ∀ r ∈ R, 36 ∉ r) (hB : RenderInj B) {st st' : NState} {op : Op}
+    (hi : InvP B R st) (hop : ∀ b ∈ opBase op, b ∈ B) (h : stepOp false st op = some st') : InvP B R st' := by
   cases op with
   | push fn =>
     simp only [stepOp] at h
@@ -290,7 +318,7 @@ theorem inv_step_plain (B : List Name) (hB : RenderInj B) {st st' : NState} {op 
         obtain ⟨c, nm⟩ := p
         simp [hn] at h
         subst h
-        have := (inv_req_plain B hB (inv_copy_plain B hi hch) (hop _ (by simp [opBase])) hn).1
+        have := (inv_req_plain B R hR hB (inv_copy_plain B R hi hch) (hop _ (by simp [opBase])) hn).1
         simpa using this
   | pop =>
     simp only [stepOp] at h
@@ -323,7 +351,7 @@ theorem inv_step_plain (B : List Name) (hB : RenderInj B) {st st' : NState} {op 
       obtain ⟨c, nm⟩ := p
       simp [hn] at h
       subst h
-      exact (inv_req_plain B hB hi (hop _ (by simp [opBase])) hn).1
+      exact (inv_req_plain B R hR hB hi (hop _ (by simp [opBase])) hn).1
   | ptr v name =>
     simp only [stepOp, varPtrName, Bool.false_eq_true, if_false] at h
     cases hl : lookupPtr v st.chain with
@@ -339,12 +367,12 @@ theorem inv_step_plain (B : List Name) (hB : RenderInj B) {st st' : NState} {op 
         obtain ⟨c, nm⟩ := p
         simp [hn] at h
         subst h
-        have := (inv_req_plain B hB hi (hop _ (by simp [opBase])) hn).1
+        have := (inv_req_plain B R hR hB hi (hop _ (by simp [opBase])) hn).1
         simp only [Bool.false_eq_true, if_false] at this
-        exact inv_recordPtr B v nm this
+        exact inv_recordPtr B R v nm this
 
-theorem inv_run_plain (B : List Name) (hB : RenderInj B) : ∀ (ops : List Op) (st st' : NState), InvP B st →
-    (∀ op ∈ ops, ∀ b ∈ opBase op, b ∈ B) → runOps false st ops = some st' → InvP B st'
+theorem inv_run_plain (B R : List Name) (hR : ∀ r ∈ R, 36 ∉ r) (hB : RenderInj B) : ∀ (ops : List Op) (st st' : NState),
+    InvP B R st → (∀ op ∈ ops, ∀ b ∈ opBase op, b ∈ B) → runOps false st ops = some st' → InvP B R st'
   | [], st, st', hi, _, h => by simp [runOps] at h; subst h; exact hi
   | op :: ops, st, st', hi, hops, h => by
     simp only [runOps] at h
@@ -352,7 +380,7 @@ theorem inv_run_plain (B : List Name) (hB : RenderInj B) : ∀ (ops : List Op) (
     | none => simp [hs] at h
     | some s1 =>
       simp [hs] at h
-      exact inv_run_plain B hB ops s1 st' (inv_step_plain B hB hi (hops op (by simp)) hs)
+      exact inv_run_plain B R hR hB ops s1 st' (inv_step_plain B R hR hB hi (hops op (by simp)) hs)
         (fun o ho => hops o (List.mem_cons_of_mem _ ho)) h
 
 end GV.Proofs.NamesPlain
